@@ -2,6 +2,7 @@
 import contextlib
 import copy
 import importlib
+import random
 import types
 from collections import Counter
 
@@ -27,6 +28,8 @@ TRUSTED = [
     "CPython list/tuple/set/dict/deque semantics as transcribed in Generator/Segmentation.v; BFS distances of split_block are modelled level-synchronously (same dict as the queue BFS), "
     "the recursive flood fill of _is_connected as the same level iteration; set iteration order of the merge pairs is not modelled (compared as sorted lists)",
     "purity ('never modifies the value it was applied to') is about Python aliasing and is TESTED by the harness, not proved",
+    "search also reports as violations: candidates() raising on a value that satisfies the invariant, and initial() raising anything but the IndexError of "
+    "random.choice([]) (infeasible bounds); initial() runs that exceed a PRNG call budget (bounds that can never be met) are skipped",
 ]
 ASSUMPTIONS = [
     "cells of supplied blocks lie inside the board (negative indices would wrap in Python; not modelled)",
@@ -415,7 +418,7 @@ def correspond(ctx):
         ctx.corr("init-defaults", cfg, mo, vlib.guarded(f))
 
     # --- candidates (+ apply on the proposed updates)
-    per = 14 if not ctx.thorough else 60
+    per = 40 if not ctx.thorough else 120
     reqs, cases = [], []
     for (h, w) in board_sizes(ctx):
         for rep in range(per):
@@ -467,7 +470,7 @@ def correspond(ctx):
     reqs, cases = [], []
     isz = [(0, 0), (0, 2), (2, 0)] + board_sizes(ctx)
     for (h, w) in isz:
-        for rep in range(5 if not ctx.thorough else 20):
+        for rep in range(14 if not ctx.thorough else 40):
             ib = None
             if h * w > 0 and rng.random() < 0.35:
                 ib = norm_blocks(rand_partition(rng, h, w, rng.randint(1, h * w)))
@@ -486,7 +489,7 @@ def correspond(ctx):
     # --- split_block and _is_connected on arbitrary cell sets
     reqs, cases = [], []
     for (h, w) in board_sizes(ctx):
-        for rep in range(6 if not ctx.thorough else 25):
+        for rep in range(16 if not ctx.thorough else 50):
             cells = [(y, x) for y in range(h) for x in range(w)]
             if rng.random() < 0.6:
                 blk = rng.choice(rand_partition(rng, h, w, rng.randint(1, 3)))
@@ -698,6 +701,21 @@ def replay(ctx, rp):
     builder = mk_builder(cfg)
     cur = tup(v["value"])
     u = (list(v["update"][0]), tup(v["update"][1]))
+    # is the recorded update still proposed for the recorded value?  (splits depend on the PRNG: try many seeds)
+    rng, found = random.Random(0), False
+    for _ in range(400 if kind_of(u) == "split" else 1):
+        try:
+            with patched(BudgetRandom(rng, 10 ** 6)):
+                cands = builder.candidates(copy.deepcopy(cur))
+        except Exception as ex:  # noqa
+            print("candidates raises:", vlib.err_name(ex))
+            return 1
+        if any(norm_update(c) == norm_update(u) for c in cands):
+            found = True
+            break
+    if not found:
+        print("the recorded update is no longer proposed for the recorded value")
+        return 0
     sub = vlib.Ctx("C18", "quick", 0)
     check_step(sub, cfg, builder, cur, u, "replay")
     for x in sub.violations:
